@@ -12,7 +12,8 @@ schema('droop.values.guarded.Guarded',
                '_Guarded__scaled': 'int', '_Guarded__scaledd': 'int', '_Guarded__scaledr': 'int',
                '_Guarded__scaledg': 'int', '_Guarded__dfmt': 'str', '_Guarded__geps': 'int',
                'maxDiff': 'int', 'minDiff': 'int', 'epsilon': 'ref:droop.values.guarded.Guarded',
-               'exact': 'bool', 'quasi_exact': 'bool', 'info': 'str', 'name': 'str'})
+               'exact': 'bool', 'quasi_exact': 'bool', 'info': 'str'})
+# Guarded.name is the class-body constant 'guarded'
 
 
 @specfn
@@ -56,7 +57,6 @@ def geq(a, b):
 
 @contract('droop.values.guarded.Guarded.__init__', props=['C13'])
 def guarded_init(self: 'Guarded', arg: 'int|Guarded', setval: 'bool' = False):
-    requires(guarded_inv())
     if is_int(arg):
         ensures(self._value == ite(setval, arg, arg * gS()))
     else:
